@@ -63,4 +63,34 @@ CHECKS = {
         "note": ASSUME % "T1, T3, T5, T7, T8",
         "technique": "static analysis: control-equivalence (dominators/post-dominators) pairing of error constructions and record calls, failure-condition classification, who-may-call on the counter",
     },
+    "C11": {
+        "text": "Uniqueness: one Identity::new call, fed by fetch_add(non-zero constant) on a static atomic referenced by no other body, feeding the one ActorRef::new (atomic RMW axiom gives uniqueness under any concurrency). Stability: every ActorRef/ActorWeak construction copies id from the parameter/self.id, identity() returns self.id, erased handles forward. Truthfulness: complete decision tables of ActorRef::is_alive, ActorWeak::is_alive and ActorWeak::upgrade over the tokio handle predicates; receivers die with the lifecycle on every exit. Not decided: the instant of the flip under concurrency (tokio handle semantics).",
+        "note": ASSUME % "T2, T7, T8, T9",
+        "technique": "static analysis: who-may-call on the id counter static, field provenance of handle constructions, decision tables",
+    },
+    "C12": {
+        "text": "Isolation reduced to structure: lifecycle future directly into the single tokio::spawn, no catch_unwind, no hook on unwind paths, receivers owned by the task (pending/future senders fail). Global-state inventory: every static under every feature set is classified (atomic, OnceLock, task-local key, tracing metadata, wait-for map) - an unclassified static is reported. Lock discipline: within the live range of the wait-for MutexGuard in ask no panic entry/Assert/unwrap is reachable (crate-local callees transitively), the deliberate panic happens only after the guard was moved into mem::drop, and WaitForGuard::drop never unwraps the lock result - hence the mutex cannot be poisoned and a destructor cannot abort.",
+        "note": ASSUME % "T6, T7, T8, T9",
+        "technique": "static analysis: statics inventory, guard live-range computation + panic-site scan with bounded inlining, who-may-call",
+    },
+    "C14": {
+        "text": "Wiring necessary for completeness (each item's failure loses some cycle): every hook future is the future argument of CURRENT_ACTOR.scope with this actor's identity; every async ask path enters ActorRef::ask; self-ask test, has_path call and insert lie in the live range of one MutexGuard (atomic check-then-insert) with edge caller.id -> callee identity, before the send; walk direction decided by interprocedural provenance (starts at callee id, searches caller id); true outcomes lead to the panic. NOT decided: functional correctness of the has_path loop (needs deductive/bounded verification, different family).",
+        "note": ASSUME % "T6, T7, T8" + " Evaluated under feature sets containing deadlock-detection.",
+        "technique": "static analysis: future-wrapper provenance, lock-guard live range, interprocedural argument provenance, dominance",
+    },
+    "C15": {
+        "text": "Edge <=> guard (control-equivalent, same key, only when a task-local identity exists); the compiler's coroutine layout stores a WaitForGuard at every suspension point after the insert, so completion, timeout, cancellation and unwinding all run the destructor, which removes self.0 under the same lock; one insert and one remove site; the panic is reachable only through (self-ask or has_path) under the lock. Rule O15.5 (edge must be retired before the reply is published) fails on the unchanged tree: genuine defect F1 (stale edge => false deadlock panic), reproduced and recorded as a known finding; any other violation still fails the check.",
+        "note": ASSUME % "T3, T7, T8, T9" + " Evaluated under feature sets containing deadlock-detection. Correctness of has_path itself is not decided (see C14).",
+        "technique": "static analysis: control-equivalence, coroutine-layout typestate (guard stored across awaits), destructor inspection, dominance of the reply publication",
+    },
+    "C16": {
+        "text": "All 34 trait-impl methods, 12 From conversions and 6 Clone impls of the boxed handles are verbatim forwarders: only call is the expected callee (derived from the method name) plus transparent wrappers, every argument is exactly the corresponding parameter in order, the result is the callee's result through boxed()/Box::new/unsize/Option::map-with-boxing only, into the correct (same / counterpart) trait object; debug_fmt is effect-free. A verbatim forwarder is observationally transparent by construction, for every input and schedule. What stands behind strong/weak objects: impl and unsize-coercion inventory.",
+        "note": ASSUME % "T6, T8",
+        "technique": "static analysis: forwarder check (resolved callee + argument provenance + wrapper chain) over impl items",
+    },
+    "C17": {
+        "text": "Sibling agreement of blocking_*_no_timeout with tell/ask on a behavioural descriptor (envelope shape, single waiting enqueue, error variant x failure condition x dead-letter reason, downcast target); C01/C03/C13 rules evaluated on the blocking bodies; dispatch None/Some(d) decided by guard + argument provenance; helper closure builds a current-thread runtime with the timer enabled, block_on's the timeout wrapper (C10 shape) and sends the result back; the caller returns rx.recv() (dead helper => Err); runtime entry only inside closures passed to std::thread::spawn; deprecated aliases forward with constant None. Not decided: wall-clock bound (thread scheduling).",
+        "note": ASSUME % "T1, T3, T5, T6, T8",
+        "technique": "static analysis: sibling cross-check of send-path descriptors, who-may-call on runtime entry points, provenance",
+    },
 }
